@@ -143,6 +143,16 @@ def gen_program(seed, prop):
         for _ in range(rng.choice([0, 1, 1, 2, 2, 3, 4, 5])):
             uid += 1
             s["items"].append(gen_item(rng, uid, bias))
+        # a named stream object stays open over several statements: now and then another,
+        # complete statement is executed while it is open (its record arrives first)
+        if s["named"] and rng.random() < 0.3:
+            inner = {"sev": rng.randrange(6), "named": False, "tag": None, "items": []}
+            if rng.random() < 0.5:
+                inner["tag"] = rng.choice(["in", "", "tag"])
+            for _ in range(rng.choice([0, 1, 2])):
+                uid += 1
+                inner["items"].append(gen_item(rng, uid, bias))
+            s["inner"] = {"at": rng.randint(0, len(s["items"])), "stmt": inner}
         stmts.append(s)
     p["stmts"] = stmts
     return p
@@ -224,6 +234,16 @@ def program_cpp(p):
             d, e = item_cpp(it, k, j)
             decls += d
             exprs.append(e)
+        inner_line = None
+        if s.get("inner"):
+            iexprs = []
+            for j, it in enumerate(s["inner"]["stmt"]["items"]):
+                d, e = item_cpp(it, k, 100 + j)
+                decls += d
+                iexprs.append(e)
+            ist = s["inner"]["stmt"]
+            itag = "" if ist["tag"] is None else cstr(ist["tag"])
+            inner_line = "        " + " << ".join([f"L::{SEV[ist['sev']]}({itag})"] + iexprs) + ";"
         if decls:
             a(decls.rstrip("\n"))
         tag = "" if s["tag"] is None else cstr(s["tag"])
@@ -232,9 +252,13 @@ def program_cpp(p):
             a("    {")
             a(f"        auto log = {call};")
             a(f'        ev("M{k}.0");')
+            if inner_line and s["inner"]["at"] == 0:
+                a(inner_line)
             for j, e in enumerate(exprs):
                 a(f"        log << {e};")
                 a(f'        ev("M{k}.{j + 1}");')
+                if inner_line and s["inner"]["at"] == j + 1:
+                    a(inner_line)
             a("    }")
         else:
             a("    " + " << ".join([call] + exprs) + ";")
@@ -252,8 +276,9 @@ def program_cpp(p):
           f"static_cast<nitro::log::severity_level>(t{i}));")
     a('        std::printf("T' + " %d" * nl + '\\n"' + "".join(f", t{i}" for i in range(nl)) + ");")
     for k in range(len(p["stmts"])):
-        a(f"        trace.clear(); stmt_{k}(); std::printf(\"#{k} W%d\\n\", will({p['stmts'][k]['sev']})); "
-          "for (auto& e : trace) std::printf(\"%s\\n\", e.c_str());")
+        inner_sev = p['stmts'][k]['inner']['stmt']['sev'] if p['stmts'][k].get('inner') else p['stmts'][k]['sev']
+        a(f"        trace.clear(); stmt_{k}(); std::printf(\"#{k} W%d W%d\\n\", will({p['stmts'][k]['sev']}), "
+          f"will({inner_sev})); for (auto& e : trace) std::printf(\"%s\\n\", e.c_str());")
     a("    }\n    return 0;\n}")
     return "\n".join(out) + "\n"
 
@@ -264,18 +289,25 @@ def render(it):
     return it["text"]
 
 
-def expected_events(p, s, k, th, filter_decision=None):
+def expected_events(p, s, k, th, filter_decision=None, inner_decision=None):
     """events of statement k under thresholds th"""
     accepts = filter_eval(p["filter"], s["sev"], th) if filter_decision is None else filter_decision
     enabled = s["sev"] >= p["min"] and accepts
+    inner_evs = []
+    if s.get("inner"):
+        _, inner_evs = expected_events(p, s["inner"]["stmt"], k, th, inner_decision)
     evs = []
     if s["named"]:
         evs.append(f"M{k}.0")
+        if s.get("inner") and s["inner"]["at"] == 0:
+            evs += inner_evs
     for j, it in enumerate(s["items"]):
         if enabled and it["kind"].startswith("call"):
             evs.append(f"C{it['cid']}")
         if s["named"]:
             evs.append(f"M{k}.{j + 1}")
+            if s.get("inner") and s["inner"]["at"] == j + 1:
+                evs += inner_evs
     if enabled:
         tag = (s["tag"] or "") if p["has_tag"] else "-"
         msg = "".join(render(it) for it in s["items"])
@@ -369,9 +401,10 @@ def check_program(p, src_root, workdir, name, stats=None):
                    f"{lines[pos] if pos < len(lines) else '<end>'!r}", evaluations
         pos += 1
         for k, s in enumerate(p["stmts"]):
-            if pos >= len(lines) or lines[pos] not in (f"#{k} W0", f"#{k} W1"):
+            if pos >= len(lines) or not lines[pos].startswith(f"#{k} W") or len(lines[pos].split()) != 3:
                 return f"trace out of step before statement {k}", evaluations
-            real_filter_accepts = lines[pos].endswith("W1")
+            real_filter_accepts = lines[pos].split()[1] == "W1"
+            real_filter_accepts_inner = lines[pos].split()[2] == "W1"
             pos += 1
             got = []
             while pos < len(lines) and not lines[pos].startswith("#") and not lines[pos].startswith("T ") \
@@ -382,7 +415,8 @@ def check_program(p, src_root, workdir, name, stats=None):
             # relative to the decision of the real filter ("a statement rejected by the runtime
             # filter ..."), so a wrong filter is C05's finding, not C10's
             enabled, want = expected_events(p, s, k, th,
-                                            None if prop == "C05" else real_filter_accepts)
+                                            None if prop == "C05" else real_filter_accepts,
+                                            None if prop == "C05" else real_filter_accepts_inner)
             evaluations += 1
             if stats is not None:
                 ncall = sum(1 for i in s["items"] if i["kind"].startswith("call"))
@@ -394,6 +428,8 @@ def check_program(p, src_root, workdir, name, stats=None):
                                  ("disabled:compile-time" if s["sev"] < p["min"] else "disabled:runtime")] += 1
                 if s["named"]:
                     stats["classes"]["form:named-object"] += 1
+                if s.get("inner"):
+                    stats["classes"]["form:statement-inside-open-named-stream"] += 1
                 if ncall:
                     stats["classes"]["has-callable"] += 1
                 if nontrivial:
@@ -475,7 +511,8 @@ def main():
 
     stats = {"evaluations": 0, "nontrivial_total": 0, "failures": 0, "fps": set(), "samples": [],
              "classes": {"enabled": 0, "disabled:compile-time": 0, "disabled:runtime": 0,
-                         "form:named-object": 0, "has-callable": 0, "programs": 0}}
+                         "form:named-object": 0, "has-callable": 0, "programs": 0,
+                         "form:statement-inside-open-named-stream": 0}}
     wd = os.path.join(args.workdir, "logprog-%s-%d" % (args.prop, args.seed))
     failures = []
 
